@@ -294,6 +294,7 @@ func TestC14(t *testing.T) {
 	c := probe.NewCtx(t, "C14")
 	if c.Shard == 0 {
 		endurance(c, "C14", "aka-setattr-gaps", 140000)
+		endurance(c, "C14", "eap-unmarshal", 1100000)
 	}
 	if c.Shard == 0 {
 		for _, ty := range []uint8{model.AT_RAND, model.AT_AUTN, model.AT_MAC, model.AT_KDF, model.AT_RES} {
